@@ -210,6 +210,7 @@ def run_suite(R, ctx, binary, nscen):
         total.update(st)
         conns[max(int(l.split()[2]) for l in sc if l.startswith("RZ w ")) if any(l.startswith("RZ w ") for l in sc) else 0] += 1
     obs, d, se, rc = _judge(binary, lines)
+    core.negative_control(R, obs, "rendezvous", skip=lambda l: not l.startswith("RZ c ") or " => " not in l)
     replies = sum(l.count(" r:") for l in obs)
     proposals = sum(l.count(" p:") for l in obs)
     hangs = sum(1 for l in obs if " x:" in l)
